@@ -113,13 +113,15 @@ CHECKS = {
         "text": ("Lean theorems (unbounded): LIVENESS on a concrete blocking model of the sender's goroutines (walker, n workers, pipeline of capacity cap, "
                  "receive loop): after teardown no well-formed state with a live goroutine is stuck (sender_no_deadlock_after_teardown, any n >= 1, cap >= 1, any "
                  "number of pending requests) and every step decreases a variant (sender_terminates_after_teardown); invariant preserved (sender_wf_invariant); "
-                 "kernel-checked stuck state for the unrepaired push (unrepaired_sender_can_block_forever). SAFETY: the receiver can send FIN / report success only "
+                 "kernel-checked stuck state for the unrepaired push (unrepaired_sender_can_block_forever). The same for a concrete model of the RECEIVER's "
+                 "goroutines (packet reader, dynamicWalker feeder, differ goroutine, async writers; channel capacities and backlog arbitrary): "
+                 "receiver_no_deadlock_after_teardown, receiver_terminates (variant), receiver_wf_invariant, and a kernel-checked schedule on which a feeder "
+                 "that leaves without closing closeCh blocks the reader for ever (feeder_without_close_blocks_forever). SAFETY: the receiver can send FIN / report success only "
                  "after the end marker and every needed terminator (fin_only_if_complete); convergence from every valid prior destination (resume_converges). "
                  "Fault enumeration on the real code: n-th Send/RecvMsg failing on either end, cancellation after k packets, walk error, read error at offset j, "
                  "hasher/notify error, SIGKILL after k packets, peer that stops reading with 0..320 requests pending; teardown after a grace period; oracle: both "
                  "calls return within 3 s, no fsutil goroutine left, success only with a converged destination / a received FIN, follow-up transfer converges."),
-        "note": ("Trusted: Lean kernel + standard axioms. The concrete LTS covers the sender (where the defect was); the receiver's termination after teardown is "
-                 "decided by fault enumeration only. The LTS is tied to the code by the fault suites' observed outcomes (never 'blocked'), not by a step-by-step "
+        "note": ("Trusted: Lean kernel + standard axioms. The concrete LTSs abstract callbacks and file I/O as non-blocking steps. They are tied to the code by the fault suites' observed outcomes (never 'blocked'), not by a step-by-step "
                  "correspondence. 'Bounded time' on the real code is wall-clock 3 s after teardown; environment calls (reads, callbacks) are assumed to return."),
         "technique": "Lean 4 liveness (no-deadlock + variant) and safety theorems about LTS models + fault enumeration on the real code with a Lean-evaluated convergence oracle",
     },
